@@ -70,9 +70,9 @@ buf_prop("C05", ["basic", "caps", "joint"], ["basic", "caps", "joint"],
          "programs of dict/list operations (every mutator and read, child handles) interleaved with well-nested enter/exit of obj.buffered and Class.buffer_backend(cap) to depth 4 on the four buffered families x {dict, list}; correspondence with the Lean buffer machine (result, disk content, size, capacity, buffered files after every step) and a twin oracle executing the same program on the unbuffered class; distinct = distinct (op-name sequence, context structure)")
 buf_prop("C06", ["joint", "basic"], ["joint", "jointcaps"],
          "programs with two objects per file that enter and leave their buffered contexts together (or share backend-wide contexts), reads and writes assigned to the objects at random, flush order fixed by first-touch order; twin oracle: every result equals the unbuffered execution, the file after the common exit equals the unbuffered file")
-buf_prop("C07", ["conflict", "caps"], ["basic"], c07=True,
+buf_prop("C07", ["conflict", "caps", "faults"], ["basic"], c07=True,
          rule="exhaustive scenarios over 1-2 files (quick) / 1-3 files (thorough): each file gets a role in {modified, read-only, untouched} x an outside write {before first buffered access, after it, never}, every first-touch order, both context kinds, dict and list, both strategies; plus generated programs with outside writes during buffered contexts in correspondence with the Lean machine (which models metadata stamps)")
-buf_prop("C15", ["caps", "basic", "conflict"], ["caps", "jointcaps", "basic"],
+buf_prop("C15", ["caps", "basic", "conflict", "faults"], ["caps", "jointcaps", "basic"],
          "programs with capacity changes (set_buffer_capacity, buffer_backend(cap), capacities from 0 / smaller than one document to large) over 1-3 files; after every step the reported size and capacity are compared with the Lean machine and, independently, with the encoded length of the twin's files (serialized) / bounds from the files that differ from disk (shared memory)")
 
 
